@@ -1,12 +1,220 @@
 import Driver.Util
-/- Line-protocol handler for the `gids` model (stub until the model exists). -/
+import Munge.Model.Gids
+/-
+Line-protocol handler for the `Gids` model (C17).  One line = one self-contained scenario
+(see harness/h_gids.c and tools/props/c17.py for the syntax):
+
+    gids <gnu|eb> <step> <step> ...
+
+The refresh is executed with the verified definitions only: `scanItem` consumes the `xgetgrent`
+results produced by the concrete reader (`xgetgrent` over the scripted `getgrent_r`), and the same
+item list is then replayed through the micro-step system `sysStep`, with the armed lookups / SIGHUP
+inserted at the requested point of the build.
+-/
 namespace Driver.Gids
+open Munge Munge.C Munge.Gids Munge.Gen.Gids
 
 structure St where
   dummy : Unit := ()
 
 def init : St := {}
 
-def step (st : St) (_args : List String) : St × String := (st, "bad-op")
+/-- scenario state -/
+structure Sc where
+  eb : Bool
+  sys : Option (Sys PwEnv) := none
+  pend : List (Int × Int) := []            -- pending timers (id, msec), oldest first
+  env : UpdEnv := ⟨0, 0, 0⟩
+  scans : List (List GrSItem) := []
+  pwScripts : List (String × List PwResp) := []
+  grbuflen : Nat := 0                       -- the function-local statics of `_gids_map_create`
+  pwbuflen : Nat := 0
+  gtodFail : Nat := 0
+  armL : Option (Nat × List (Int × Int)) := none
+  armU : Nat := 0
+
+def splitNE (s : String) (sep : String) : List String := s.splitOn sep
+
+def memberName (s : String) : String := if s == "~" then "" else s
+
+def parseNat (s : String) : Nat := s.toNat?.getD 0
+def parseInt (s : String) : Int := s.toInt?.getD 0
+
+/-- `g<gid>=<m>,<m>[@need][!eintr]` or `e<errno>` -/
+def parseGrItem (s : String) : GrSItem :=
+  if s.startsWith "e" then .err (parseInt (s.drop 1).toString) else
+  let (s, eintr) := match s.splitOn "!" with
+    | [a, b] => (a, parseNat b)
+    | _ => (s, 0)
+  let (s, need) := match s.splitOn "@" with
+    | [a, b] => (a, parseNat b)
+    | _ => (s, 0)
+  match s.splitOn "=" with
+  | [g, ms] =>
+    let mem := if ms == "" then [] else (ms.splitOn ",").map memberName
+    .ent (parseInt (g.drop 1).toString) mem need eintr
+  | _ => .err 0
+
+def parseGroups (s : String) : List (List GrSItem) :=
+  if s == "-" then [] else
+  (s.splitOn "|").map fun sc => if sc == "" then [] else (sc.splitOn ";").map parseGrItem
+
+def parsePwResp (s : String) : PwResp :=
+  if s.startsWith "e" then .rc (parseInt (s.drop 1).toString) else
+  match s.splitOn "@" with
+  | [a, b] => .uid (parseInt a) (parseNat b)
+  | _ => .uid (parseInt s) 0
+
+def parsePasswd (s : String) : List (String × List PwResp) :=
+  if s == "-" then [] else
+  (s.splitOn ";").map fun e =>
+    match e.splitOn "=" with
+    | [n, rs] => (memberName n, (rs.splitOn "/").map parsePwResp)
+    | _ => (e, [])
+
+def parsePairs (s : String) : List (Int × Int) :=
+  (s.splitOn ",").map fun p =>
+    match p.splitOn "." with
+    | [u, g] => (parseInt u, parseInt g)
+    | _ => (parseInt p, 0)
+
+/-- apply the timer events of a kernel run to the pending queue; returns the printed tokens -/
+def timerEvents (evs : List (String × List Int)) (newId : Int) (pend : List (Int × Int)) :
+    List (Int × Int) × List String :=
+  evs.foldl (fun (acc : List (Int × Int) × List String) e =>
+    let (pend, out) := acc
+    match e with
+    | ("timer_set_relative", [ms]) => (pend ++ [(newId, ms)], out ++ [s!"S{ms}"])
+    | ("timer_cancel", [id]) =>
+      if pend.any (·.1 == id) then (pend.filter (·.1 != id), out ++ ["X1"]) else (pend, out ++ ["X0"])
+    | _ => (pend, out)) (pend, [])
+
+def bits (l : List Bool) : String := String.ofList (l.map fun b => if b then '1' else '0')
+
+/-- pass 1: let the verified scan loop consume the reader; returns the `xgetgrent` results of this build -/
+def collect (eb : Bool) : Nat → GrEnv → BSt PwEnv → List GrItem → List GrItem × GrEnv
+  | 0, rd, _, acc => (acc.reverse, rd)
+  | fuel + 1, rd, st, acc =>
+    let (it, rd') := xgetgrent eb 200 rd
+    match scanItem pwOracle st it with
+    | .done _ _ => ((it :: acc).reverse, rd')
+    | .cont st' restarted => collect eb fuel (if restarted then rd'.init else rd') st' (it :: acc)
+
+def isEnt : GrItem → Bool
+  | .ent .. => true
+  | _ => false
+
+/-- pass 2: the micro-step system over the collected items, with the armed actions before the k-th entry -/
+def replay (sc : Sc) : Sys PwEnv → List GrItem → Nat → List (Int × Int) → List String → Option String →
+    Sys PwEnv × List (Int × Int) × List String × Option String
+  | s, [], _, pend, evs, lres => (s, pend, evs, lres)
+  | s, it :: rest, delivered, pend, evs, lres =>
+    let delivered := if isEnt it then delivered + 1 else delivered
+    let lres := match sc.armL with
+      | some (k, qs) =>
+        if isEnt it ∧ delivered = k then some (bits (qs.map fun (u, g) => isMember s.sh.installed u g)) else lres
+      | none => lres
+    let (s, pend, evs) :=
+      if isEnt it ∧ sc.armU ≠ 0 ∧ delivered = sc.armU then
+        let k := hupKernel s.sh s.timerSeq
+        let (pend', o) := timerEvents k.events s.timerSeq pend
+        ((sysStep pwOracle s .hup).1, pend', evs ++ o)
+      else (s, pend, evs)
+    match s.phase with
+    | .building .. => replay sc (sysStep pwOracle s .upd).1 rest delivered pend evs lres
+    | _ => (s, pend, evs, lres)
+
+def stepT (sc : Sc) : Sc × String :=
+  match sc.sys, sc.pend with
+  | some s0, _ :: pendRest =>
+    let pw0 : PwEnv := { buflen := if sc.pwbuflen = 0 then PW_SYS_SIZE.toNat else sc.pwbuflen, scripts := sc.pwScripts }
+    let s0 := { s0 with env := sc.env, pw := pw0 }
+    let s1 := (sysStep pwOracle s0 .upd).1                       -- first locked section
+    let (d, t) := match s1.phase with
+      | .sec1 d t => (d, t)
+      | _ => (s0.sh.doStat, s0.sh.tLast)
+    let wants := wantsBuild d t s1.sh s1.env
+    let rd0 : GrEnv := { buflen := if sc.grbuflen = 0 then GR_SYS_SIZE.toNat else sc.grbuflen, scans := sc.scans }
+    -- the build
+    let (s2, rd, pend, evs, lres) :=
+      if wants ∧ sc.gtodFail = 1 then
+        -- `_gids_map_create` fails before it starts to scan
+        ({ s1 with phase := .built d t s1.env none }, rd0, pendRest, [], (none : Option String))
+      else if wants then
+        let (items, rd) := collect sc.eb 1000000 rd0.init (initBSt pw0) []
+        let s1 := { s1 with db := items }
+        let sb := (sysStep pwOracle s1 .upd).1
+        let (s2, pend, evs, lres) := replay sc sb items 0 pendRest [] none
+        (s2, rd, pend, evs, lres)
+      else ((sysStep pwOracle s1 .upd).1, rd0, pendRest, [], none)
+    -- second locked section
+    let (res, ok) := match s2.phase with
+      | .built _ _ _ r => (r, true)
+      | _ => (none, false)
+    let res := if sc.gtodFail = 2 then none else res
+    let s2 := if sc.gtodFail = 2 then { s2 with phase := .built d t s1.env none } else s2
+    let k := updKernel d t s2.sh s1.env res s2.timerSeq
+    let (pend, o) := timerEvents k.events s2.timerSeq pend
+    let s3 := (sysStep pwOracle s2 .upd).1
+    let built := res.isSome
+    let sc' := { sc with sys := some s3, pend := pend, pwScripts := s3.pw.scripts,
+                         grbuflen := if built then rd.buflen else sc.grbuflen,
+                         pwbuflen := if built then s3.pw.buflen else sc.pwbuflen,
+                         gtodFail := 0, armL := none, armU := 0 }
+    let ltxt := match sc.armL with
+      | some _ => "{" ++ lres.getD "-" ++ "}"
+      | none => ""
+    let inits := if wants ∧ sc.gtodFail ≠ 1 then rd.scanIdx else 0
+    let grl := if wants ∧ sc.gtodFail ≠ 1 then rd.lastLen else 0
+    let pwl := if wants ∧ sc.gtodFail ≠ 1 then s3.pw.lastLen else 0
+    (sc', s!"T{inits}.{grl}.{pwl}[{String.intercalate "," (evs ++ o)}]{ltxt}" ++ (if ok then "" else "!phase"))
+  | _, _ => (sc, "T-")
+
+def step1 (sc : Sc) (w : String) : Sc × String :=
+  let f := w.splitOn ":"
+  match f with
+  | ["C", i, d] =>
+    match create (parseInt i) (parseInt d) 1 with
+    | none => ({ sc with sys := none }, "C-")
+    | some sh =>
+      let k := hupKernel { installed := none, tLast := 0, doStat := parseInt d, interval := parseInt i, timer := 0 } 1
+      let (pend, o) := timerEvents k.events 1 sc.pend
+      let s : Sys PwEnv := { sh := sh, phase := .idle, env := sc.env, db := [], pw := { buflen := 0, scripts := [] },
+                             timerSeq := 2 }
+      ({ sc with sys := some s, pend := pend }, s!"C[{String.intercalate "," o}]")
+  | ["E", now, mt] =>
+    let env : UpdEnv := if mt == "x" then ⟨parseInt now, -1, 0⟩ else ⟨parseInt now, 0, parseInt mt⟩
+    ({ sc with env := env }, "E")
+  | ["D", g, p] =>
+    ({ sc with scans := parseGroups g, pwScripts := parsePasswd p }, "D")
+  | ["G", k] => ({ sc with gtodFail := parseNat k }, "G")
+  | ["L", k, qs] => ({ sc with armL := some (parseNat k, parsePairs qs) }, "L")
+  | ["U", k] => ({ sc with armU := parseNat k }, "U")
+  | ["H"] =>
+    match sc.sys with
+    | some s =>
+      let k := hupKernel s.sh s.timerSeq
+      let (pend, o) := timerEvents k.events s.timerSeq sc.pend
+      ({ sc with sys := some (sysStep pwOracle s .hup).1, pend := pend }, s!"H[{String.intercalate "," o}]")
+    | none => (sc, "H[]")
+  | ["Q", qs] =>
+    (sc, "Q" ++ bits ((parsePairs qs).map fun (u, g) =>
+      match sc.sys with
+      | some s => isMember s.sh.installed u g
+      | none => false))          -- `gids == NULL`: gids_is_member returns 0
+  | ["T"] => stepT sc
+  | _ => (sc, "?")
+
+def scenario (variant : String) (ws : List String) : String :=
+  let sc0 : Sc := { eb := variant == "eb" }
+  let (_, outs) := ws.foldl (fun (acc : Sc × List String) w =>
+    let (sc, o) := step1 acc.1 w
+    (sc, acc.2 ++ [o])) (sc0, [])
+  String.intercalate " " outs
+
+def step (st : St) (args : List String) : St × String :=
+  match args with
+  | v :: ws => if v == "gnu" ∨ v == "eb" then (st, scenario v ws) else (st, "bad-op")
+  | _ => (st, "bad-op")
 
 end Driver.Gids
